@@ -105,6 +105,46 @@ func pruneTables(db objects.Store, survivingCommits [][]byte, allBlockKeys, allB
 	}
 }
 
+// childrenFirst orders commits so that every commit comes before its parents
+func childrenFirst(db objects.Store, sums [][]byte) ([][]byte, error) {
+	parents := map[string][][]byte{}
+	children := map[string]int{}
+	for _, sum := range sums {
+		children[string(sum)] = 0
+	}
+	for _, sum := range sums {
+		com, err := objects.GetCommit(db, sum)
+		if err != nil {
+			return nil, err
+		}
+		for _, p := range com.Parents {
+			if _, ok := children[string(p)]; ok {
+				parents[string(sum)] = append(parents[string(sum)], p)
+				children[string(p)]++
+			}
+		}
+	}
+	result := make([][]byte, 0, len(sums))
+	queue := [][]byte{}
+	for _, sum := range sums {
+		if children[string(sum)] == 0 {
+			queue = append(queue, sum)
+		}
+	}
+	for len(queue) > 0 {
+		sum := queue[0]
+		queue = queue[1:]
+		result = append(result, sum)
+		for _, p := range parents[string(sum)] {
+			children[string(p)]--
+			if children[string(p)] == 0 {
+				queue = append(queue, p)
+			}
+		}
+	}
+	return result, nil
+}
+
 type PruneOptions struct {
 	FindCommitsPbar       func() pbar.Bar
 	PruneTablesPbar       func() pbar.Bar
@@ -188,6 +228,12 @@ func Prune(db objects.Store, rs ref.Store, opts *PruneOptions) (err error) {
 	}
 
 	// remove orphaned commits
+	// children are removed before their parents, so that at no point a stored
+	// commit lacks one of its parents
+	commitsToRemove, err = childrenFirst(db, commitsToRemove)
+	if err != nil {
+		return err
+	}
 	return runWithPbar(opts.PruneCommitsPbar, func(pbarAdd func()) (err error) {
 		for _, sum := range commitsToRemove {
 			err = objects.DeleteCommit(db, sum)
